@@ -27,8 +27,8 @@ CELL = st.one_of(gen.keyish, gen.keyish, gen.hvalue)
 @st.composite
 def case(draw, tier):
     maxrows = 6 if tier == "quick" else 14
-    nf = draw(st.sampled_from([1, 2, 3]))
-    hdr = ["a", "b", "c"][:nf]
+    nf = draw(st.sampled_from([1, 2, 3, 4, 5]))
+    hdr = ["a", "b", "c", "d", "e"][:nf]
     p = draw(gen.pool(CELL, 2, 3))
     cell = st.sampled_from(p)
     # draw rows from a small pool of rows so that whole rows repeat across the two tables
@@ -42,7 +42,7 @@ def case(draw, tier):
         perm = draw(st.permutations(list(range(nf))))
         c["b"] = [[r[i] for i in perm] for r in b]
     elif draw(st.booleans()):
-        c["b"] = [["x", "y", "z"][:nf]] + [list(r) for r in b[1:]]
+        c["b"] = [["x", "y", "z", "u", "w"][:nf]] + [list(r) for r in b[1:]]
     return c
 
 
